@@ -32,6 +32,7 @@ def shards(tier, seed):
     for i in range(4 if tier == "quick" else 16):
         out.append({"id": "session%d" % i, "cmd": None, "sessions": 30 if tier == "quick" else 400})
     out.append({"id": "attached", "cmd": None, "attached": True, "reps": 1 if tier == "quick" else 12})
+    out.append({"id": "own-tables", "cmd": None, "own_tables": True, "reps": 1 if tier == "quick" else 12})
     out.append({"id": "transport", "cmd": None, "transport": True, "reps": 2 if tier == "quick" else 40})
     return out
 
@@ -248,6 +249,10 @@ def run(shard, ctx):
     from vmon import harness
     from vmon.spec import cdb as S, dataout as DO
 
+    if shard.get("own_tables"):
+        for _rep in range(shard["reps"]):
+            run_own_tables(shard, ctx)
+        return
     if shard.get("attached"):
         return run_attached(shard, ctx)
     if shard["cmd"] is None:
@@ -573,6 +578,70 @@ def run_attached(shard, ctx):
                             ctx.fail("C13:%s.attached.cdb.%s" % (c.facade, mech), "%s on %s: %s" % (c.facade, setname, msg), dict(wit, cdb=bytes(log[0].cdb)))
 
 
+def run_own_tables(shard, ctx):
+    """the command set as an object of the caller: built with the library's Enum from the entries of a standard set, assigned to
+    the device, and changed with its public add() / remove() between calls.  Whatever was looked up before, a method sends the
+    operation code the table assigns *now*, and sends nothing for a command the table does not define now"""
+    import pyscsi.pyscsi.scsi_enum_command as E
+    from pyscsi.pyscsi.scsi_opcode import OpCode
+    from pyscsi.utils.enum import Enum
+
+    from vmon import harness
+    from vmon.spec import cdb as S, dataout as DO
+
+    rng = ctx.rng()
+    for c in S.COMMANDS.values():
+        if not c.facade:
+            continue
+        for setname in c.sets:
+            std = getattr(E, setname)
+            orig = c.opcode_obj(setname)
+            key = next(k for k in std.keys if getattr(std, k) is orig)  # (an entry's own name is not always its key in the table)
+            sa = {k: getattr(orig.serviceaction, k) for k in orig.serviceaction.keys}
+            for start in ("present", "absent"):
+                tbl = Enum({k: getattr(std, k) for k in std.keys if start == "present" or k != key})
+                dev = harness.Recorder(tbl)
+                s = harness.make_facade(dev, 512)
+                present = start == "present"
+                value_now = orig.value
+                hist = [start]
+                for step in range(rng.choice([3, 4, 6])):
+                    a = dict(required_args(c, rng))
+                    if "blocksize" in a and c.xfer != "ata":
+                        a["blocksize"] = 512
+                    before = len(dev.calls)
+                    try:
+                        harness.facade_call(c, s, DO.fresh(a) if c.custom else dict(a))
+                        err = None
+                    except Exception as e:  # noqa: BLE001
+                        err = e
+                    sent = [x[0] for x in dev.calls[before:]]
+                    wit = {"method": c.facade, "cmd": c.name, "table_built_from": setname, "entry": key, "history": list(hist), "entry_present_now": present, "args": a}
+                    ctx.case(("own-table", c.facade, setname, tuple(hist)), True)
+                    ctx.count("own_table_calls")
+                    if present:
+                        if len(sent) != 1:
+                            ctx.fail("C13:%s.own_table.execute_count_%d" % (c.facade, min(len(sent), 3)), "%s with a caller-built table that defines %s (history %s): %d commands sent (%s)"
+                                     % (c.facade, key, hist, len(sent), "%s: %s" % (type(err).__name__, err) if err else "no error"), wit, exc=err)
+                        elif sent[0].cdb[0] != value_now:
+                            ctx.fail("C13:%s.own_table.opcode" % c.facade, "cdb[0]=%02Xh, the device's table assigns %02Xh to %s now (history %s)" % (sent[0].cdb[0], value_now, key, hist), wit)
+                    elif sent:
+                        ctx.fail("C13:%s.own_table.sent_without_entry" % c.facade, "%s sent a command (cdb[0]=%02Xh) although the device's table does not define %s now (history %s)"
+                                 % (c.facade, sent[0].cdb[0], key, hist), wit)
+                    # the caller changes the table
+                    if present:
+                        tbl.remove(key)
+                        present = False
+                        hist.append("remove")
+                    else:
+                        # (the value stays the standard one: the CDB length follows from the operation code's group, another
+                        # value is another command)
+                        tbl.add(key, OpCode(key, value_now, sa) if rng.random() < 0.7 else orig)
+                        present = True
+                        hist.append("add:%02X" % value_now)
+                ctx.count("own_table_histories")
+
+
 def run_transport(shard, ctx):
     """the same 'exactly once' at the boundary to the bindings: every facade method over SCSIDevice (stand-in sgio, real node,
     re-plugged before some calls) and ISCSIDevice (stand-in iscsi) produces exactly one binding call with the CDB and the
@@ -598,6 +667,7 @@ def run_transport(shard, ctx):
         setattr(_time, n, (lambda fn=fn: fn() + int(skew[0] * 1e9)) if n.endswith("_ns") else (lambda fn=fn: fn() + skew[0]))
     try:
         _run_transport(shard, ctx, rng, sg, isc, skew)
+        helper_histories(ctx, rng, sg, isc, shard["reps"] * 3)
     finally:
         for n, fn in real_clock.items():
             setattr(_time, n, fn)
@@ -670,6 +740,66 @@ def _run_transport(shard, ctx, rng, sg, isc, skew):
             except Exception:  # noqa: BLE001
                 pass
             mod.log = []
+
+
+def helper_histories(ctx, rng, sg, isc, reps):
+    """devices obtained the documented second way, pyscsi.utils.init_device(node or URL), by several users one after the other
+    (each closes what it got, as `with SCSI(...)` does): every user's calls reach the binding exactly once each"""
+    import pyscsi.pyscsi.scsi_enum_command as E
+    from pyscsi.pyscsi.scsi import SCSI
+    from pyscsi.utils import init_device
+
+    from vmon import harness
+    from vmon.sim import devnode
+    from vmon.spec import cdb as S, dataout as DO
+
+    facade_cmds = [c for c in S.COMMANDS.values() if c.facade and "sbc" in c.sets]
+    for rep in range(reps):
+        for t in ("sgio", "iscsi"):
+            mod = sg if t == "sgio" else isc
+            where = devnode.new_node() if t == "sgio" else "iscsi://127.0.0.1:3260/iqn.2003-01.org.example:target%d/0" % rep
+            kw = rng.choice([{}, {"read_write": True}, {"read_write": False}])
+            for user in range(3):
+                how = rng.choice(["with", "close", "device_close"])
+                wit = {"transport": t, "user": user, "released_by": how, "init_device_arguments": kw}
+                mod.log = []
+                try:
+                    dev = init_device(where, **kw)
+                    s = SCSI(dev, 512)
+                except Exception as e:  # noqa: BLE001
+                    ctx.fail("C13:helper.%s.attach_raises.%s" % (t, type(e).__name__), "user %d of a %s device obtained with init_device could not attach: %s: %s" % (user, t, type(e).__name__, e), wit, exc=e)
+                    break
+                inq = [ev for ev in mod.log if ev["cdb"] and ev["cdb"][0] == 0x12]
+                if len(inq) != 1 or len(mod.log) != 1:
+                    ctx.fail("C13:helper.%s.attach_binding_calls_%d" % (t, len(mod.log)), "attaching user %d sent %d commands" % (user, len(mod.log)), wit)
+                dev.opcodes = E.sbc
+                for c in rng.sample(facade_cmds, 3):
+                    a = dict(required_args(c, rng))
+                    if c.xfer in ("write", "custom") and not kw.get("read_write"):
+                        pass  # (the stand-in does not enforce the open mode)
+                    mod.log = []
+                    ctx.case(("helper", t, user, how, c.facade, rep), True)
+                    ctx.count("helper_device_calls")
+                    try:
+                        harness.facade_call(c, s, DO.fresh(a) if c.custom else dict(a))
+                        err = None
+                    except Exception as e:  # noqa: BLE001
+                        err = e
+                    if len(mod.log) != 1:
+                        ctx.fail("C13:helper.%s.binding_calls_%d" % (t, min(len(mod.log), 3)), "%s of user %d on a device from init_device: the binding was called %d times (%s)"
+                                 % (c.facade, user, len(mod.log), "%s: %s" % (type(err).__name__, err) if err else "no error"), dict(wit, method=c.facade, args=a), exc=err)
+                        break
+                try:
+                    if how == "with":
+                        with s:
+                            pass
+                    elif how == "close":
+                        s.device.close()
+                    else:
+                        dev.close()
+                except Exception:  # noqa: BLE001
+                    pass
+                mod.log = []
 
 
 class InjectedFault(Exception):
@@ -757,7 +887,7 @@ def _finalize_extra(merged):
 def finalize(merged, tier):
     _finalize_extra(merged)
     c = merged["counters"]
-    for k in ("facade_calls", "execute_hook_evaluations", "results_compared", "fault_injections", "session_calls"):
+    for k in ("facade_calls", "execute_hook_evaluations", "results_compared", "fault_injections", "session_calls", "own_table_calls", "helper_device_calls"):
         if c.get(k, 0) == 0:
             merged["inconclusive"].append("monitor never reached: %s" % k)
     n = len({m.split(":")[0] for m in merged["sets"].get("methods", ())})
